@@ -200,7 +200,9 @@ def main():
                 for c in (k.get('configs') or cfgs[:1]): plan.append((h, dict(c, **{k['expect_define']: None}), 'known:' + k['id']))
             c0 = dict(h.get('selftest_config') or cfgs[0])
             plan.append((h, dict(c0, VS_WITNESS=None, **excl), 'witness'))
-            for sd in h.get('selftests', []): plan.append((h, dict(c0, **{sd: None}), 'selftest:' + sd))
+            for sd in h.get('selftests', []):
+                sdn = sd if isinstance(sd, str) else sd['define']
+                plan.append((h, dict(c0, **{sdn: None}), 'selftest:' + sdn))
         # ---- build + run
         def do(item):
             h, cfg, role = item
@@ -248,7 +250,10 @@ def main():
                 else: selftests.append({'harness': h['name'], 'twin': 'witness', 'result': 'end of harness reachable'})
                 continue
             if role.startswith('selftest:'):
-                if not (res['rc'] == 10 and j.get('kind') == 'property'): inconclusive.append({'harness': h['name'], 'config': cfgname(cfg), 'why': 'SELFTEST NOT DETECTED: seeded fault %s was not reported (%s)' % (role, line[0] if line else '')})
+                want = 'property'
+                for sd in h.get('selftests', []):
+                    if not isinstance(sd, str) and 'selftest:' + sd['define'] == role: want = sd.get('kind', 'property')
+                if not (res['rc'] == 10 and (j.get('kind') == want or (want == 'memory' and j.get('kind') not in ('property', 'reach')))): inconclusive.append({'harness': h['name'], 'config': cfgname(cfg), 'why': 'SELFTEST NOT DETECTED: seeded fault %s was not reported (%s)' % (role, line[0] if line else '')})
                 else: selftests.append({'harness': h['name'], 'twin': role, 'result': 'seeded fault found: ' + j.get('message', ''), 'inputs': j.get('inputs')})
                 continue
             if res['rc'] == 10:
